@@ -9,10 +9,10 @@ cd $WT || exit 2
 [ -f patch.diff ] || { echo "no patch.diff"; exit 2; }
 DEMO=$(git status --short -uall | grep '^??' | grep tests/ | awk '{print $2}' | head -1)
 echo "demo file: $DEMO"
-T=$(basename $DEMO .rs)
-echo "== demo WITH change"; cargo test -p $CRATE --offline --features verif_hooks --test $T 2>&1 | grep -E "^test result|^test .* (FAILED|ok)" | head -5
+T=$(basename $DEMO .rs); FEAT="--features verif_hooks"; [ "$CRATE" = renet_netcode ] && FEAT=""
+echo "== demo WITH change"; cargo test -p $CRATE --offline $FEAT --test $T 2>&1 | grep -E "^test result|^test .* (FAILED|ok)" | head -5
 git apply -R patch.diff || { echo "cannot revert"; exit 2; }
-echo "== demo WITHOUT change"; cargo test -p $CRATE --offline --features verif_hooks --test $T 2>&1 | grep -E "^test result|^test .* (FAILED|ok)" | head -5
+echo "== demo WITHOUT change"; cargo test -p $CRATE --offline $FEAT --test $T 2>&1 | grep -E "^test result|^test .* (FAILED|ok)" | head -5
 git apply patch.diff
 mv $DEMO /tmp/$NAME-demo.rs
 echo "== existing tests WITH change"; cargo test -p renet -p renetcode -p renet_netcode --offline 2>&1 | grep -E "^test result" | awk '{p+=$4; f+=$6} END {print "passed", p, "failed", f}'
